@@ -31,7 +31,9 @@ func To(t time.Time) *tspb.Timestamp {
 	}
 }
 
-// From translates a protobuf Timestamp message to a Golang Time object.
+// From translates a protobuf Timestamp message to a Golang Time object. An absent (nil) message
+// reads as the zero Timestamp, the Unix epoch, as it does with Timestamp.AsTime: the message may
+// come out of an unauthenticated serialized proto that does not carry the field.
 func From(t *tspb.Timestamp) time.Time {
-	return time.Unix(t.Seconds, int64(t.Nanos))
+	return time.Unix(t.GetSeconds(), int64(t.GetNanos()))
 }
